@@ -66,8 +66,12 @@ Fixpoint dict_get {A} (k : list N) (l : list (list N * A)) : option A :=
   | (k', v) :: l' => if bytes_eqb k k' then Some v else dict_get k l'
   end.
 
-(* slice::get *)
-Definition vec_get {A} (l : list A) (i : N) : option A := nth_error l (N.to_nat i).
+(* slice::get (structural on the list: indexes are attacker-chosen and may be huge) *)
+Fixpoint vec_get {A} (l : list A) (i : N) : option A :=
+  match l with
+  | [] => None
+  | x :: l' => if i =? 0 then Some x else vec_get l' (N.pred i)
+  end.
 
 (* ---------------------------------------------------------------- compile time: compiler/module.rs *)
 (* compiler::expression::Type *)
@@ -275,9 +279,12 @@ Definition model_module_expr (v : mvalue) (ops : list vop) (exprs : list prim) :
   let* r := model_evaluate_ops v ops exprs in value_to_prim r.
 
 (* ---------------------------------------------------------------- conformance (the property's predicate) *)
-(* Boolean shape check used on dumped values.  Undefined conforms to every type; an object may publish only declared
-   fields (a missing field is the same as an undefined one); arrays and dictionaries conform elementwise; a function
-   slot must hold a function (its results are constrained by the Prop-level predicate below). *)
+Definition is_undefined (v : mvalue) : bool := match v with VUndefined => true | _ => false end.
+
+(* Boolean shape check used on dumped values.  Undefined conforms to every type; under a key the object type does not
+   declare only Undefined may be published (pe's cert_to_map does that for `valid_on` in certificate chains) — a
+   missing field is the same as an undefined one; arrays and dictionaries conform elementwise; a function slot must
+   hold a function (its results are constrained by the Prop-level predicate below). *)
 Fixpoint conforms (ty : mtype) (v : mvalue) {struct v} : bool :=
   match v with
   | VUndefined => true
@@ -295,7 +302,7 @@ Fixpoint conforms (ty : mtype) (v : mvalue) {struct v} : bool :=
              | (k, v') :: l' =>
                  match assoc k ftys with
                  | Some t => conforms t v' && go l'
-                 | None => false
+                 | None => is_undefined v' && go l'
                  end
              end) fields
       | _ => false
@@ -335,7 +342,7 @@ Fixpoint Conforms (ty : mtype) (v : mvalue) {struct v} : Prop :=
              | (k, v') :: l' =>
                  match assoc k ftys with
                  | Some t => Conforms t v' /\ go l'
-                 | None => False
+                 | None => v' = VUndefined /\ go l'
                  end
              end) fields
       | _ => False
